@@ -34,11 +34,12 @@ def grads_untouched(tensors, snaps) -> list[int]:
     return bad
 
 
-def block_assignments(J_seen: torch.Tensor, ref_blocks: list[torch.Tensor], tol: float, limit: int = 24):
+def block_assignments(J_seen: torch.Tensor, ref_blocks: list[torch.Tensor], tol: float, limit: int = 1000):
     """All orders of the requested inputs such that J_seen == concatenation of their reference blocks (within tol).
 
     Blocks are matched by content; identical blocks (all-zero blocks of unused leaves, y = a + b) give several
-    consistent assignments, all of which are returned (up to `limit`)."""
+    consistent assignments, all of which are returned (up to `limit`: at most 6 requested inputs => 720 orders, so that a
+    Jacobian whose blocks are ALL within tolerance of each other - e.g. entries of 1e-16 - never hides the true order)."""
     n = len(ref_blocks)
     scale = max([float(b.abs().max()) if b.numel() else 0.0 for b in ref_blocks] + [0.0]) + 1.0
     res = []
